@@ -6,6 +6,7 @@
 import Mathlib.Algebra.Order.Field.Basic
 import TjdModel.Agg.AsAggregator
 import TjdProps.C01
+import TjdProps.C02
 import TjdLemmas.QPLemmas
 import TjdLemmas.QPComplete
 namespace Tjd.Agg
@@ -123,5 +124,115 @@ theorem e2e_upgrad_wrong_length (E : Engine α) (tensors inputs : List Key) (sv 
     rw [fullJac_length]; exact fun h => hu h.symm
   unfold upgradAgg
   simp only [if_pos hl]
+
+/-! ### the same for `mtl_backward` (C02): `mtlJac E losses features shared` in place of `fullJac E tensors inputs` -/
+
+open Tjd.Props.C02
+
+omit [LinearOrder α] [IsStrictOrderedRing α] in
+theorem mtlJac_rows_e2e (E : Engine α) (losses features shared : List Key) (hwf : E.WF) :
+    ∀ row ∈ mtlJac E losses features shared, row.length = (shared.map E.numel).sum := by
+  intro row hrow
+  unfold mtlJac at hrow
+  obtain ⟨l, _, rfl⟩ := List.mem_map.mp hrow
+  exact mtlRow_length E hwf features shared l
+
+omit [LinearOrder α] [IsStrictOrderedRing α] in
+theorem mtlJac_length_e2e (E : Engine α) (losses features shared : List Key) :
+    (mtlJac E losses features shared).length = losses.length := by
+  unfold mtlJac
+  exact List.length_map _
+
+omit [LinearOrder α] [IsStrictOrderedRing α] in
+theorem mtlJac_matWF_e2e (E : Engine α) (losses features shared : List Key) (hwf : E.WF) :
+    MatWF (mtlJac E losses features shared) losses.length ((shared.map E.numel).sum) :=
+  ⟨mtlJac_length_e2e E losses features shared, mtlJac_rows_e2e E losses features shared hwf⟩
+
+omit [LinearOrder α] [IsStrictOrderedRing α] in
+theorem mtlJac_ncols_e2e (E : Engine α) (losses features shared : List Key) (hwf : E.WF)
+    (hl : losses ≠ []) :
+    ncols (mtlJac E losses features shared) = (shared.map E.numel).sum := by
+  apply ncols_of_rows _ _ _ (mtlJac_rows_e2e E losses features shared hwf)
+  intro h0
+  apply hl
+  have h1 := mtlJac_length_e2e E losses features shared
+  rw [h0] at h1
+  exact List.length_eq_zero_iff.mp h1.symm
+
+/-- value of the UPGrad aggregator on the feature-level Jacobian of `mtl_backward` -/
+theorem upgradAgg_mtlJac_e2e (E : Engine α) (losses features shared : List Key) (sv : Mat α → α)
+    (normEps regEps : α) (u : Vec α) (hwf : E.WF) (hl : losses ≠ [])
+    (hu : u.length = losses.length) (hre : 0 < regEps) :
+    ∃ w mg, upgradWeights (mtlJac E losses features shared) (sv (mtlJac E losses features shared))
+        normEps regEps u = some (w, mg) ∧
+      upgradAgg sv normEps regEps u (mtlJac E losses features shared) =
+        .ok (combine ((shared.map E.numel).sum) (mtlJac E losses features shared) w) := by
+  obtain ⟨w, mg, hw⟩ := upgradWeights_complete (mtlJac E losses features shared) _ _
+    (mtlJac_matWF_e2e E losses features shared hwf) (sv (mtlJac E losses features shared))
+    normEps regEps hre u hu
+  refine ⟨w, mg, hw, ?_⟩
+  have hlen : ¬ (mtlJac E losses features shared).length ≠ u.length := by
+    rw [mtlJac_length_e2e, hu]; exact fun h => h rfl
+  unfold upgradAgg
+  simp only [if_neg hlen, hw, mtlJac_ncols_e2e E losses features shared hwf hl]
+
+/-- value of the DualProj aggregator on the feature-level Jacobian of `mtl_backward` -/
+theorem dualprojAgg_mtlJac_e2e (E : Engine α) (losses features shared : List Key) (sv : Mat α → α)
+    (normEps regEps : α) (u : Vec α) (hwf : E.WF) (hl : losses ≠ [])
+    (hu : u.length = losses.length) (hre : 0 < regEps) :
+    ∃ w mg, dualprojWeights (mtlJac E losses features shared) (sv (mtlJac E losses features shared))
+        normEps regEps u = some (w, mg) ∧
+      dualprojAgg sv normEps regEps u (mtlJac E losses features shared) =
+        .ok (combine ((shared.map E.numel).sum) (mtlJac E losses features shared) w) := by
+  obtain ⟨w, mg, hw⟩ := dualprojWeights_complete (mtlJac E losses features shared) _ _
+    (mtlJac_matWF_e2e E losses features shared hwf) (sv (mtlJac E losses features shared))
+    normEps regEps hre u hu
+  refine ⟨w, mg, hw, ?_⟩
+  have hlen : ¬ (mtlJac E losses features shared).length ≠ u.length := by
+    rw [mtlJac_length_e2e, hu]; exact fun h => h rfl
+  unfold dualprojAgg
+  simp only [if_neg hlen, hw, mtlJac_ncols_e2e E losses features shared hwf hl]
+
+theorem e2e_mtl_upgrad (E : Engine α) (ndim : Key → Nat) (losses features : List Key)
+    (tps : List (List Key)) (shared : List Key) (sv : Mat α → α) (normEps regEps : α) (u : Vec α)
+    (chunk : Option Int) (retain : Bool) (h : Grads α)
+    (hv : ValidMtl E ndim losses features tps shared chunk) (hs : shared ≠ [])
+    (hu : u.length = losses.length) (hre : 0 < regEps)
+    (hsv : normEps ≤ sv (mtlJac E losses features shared)) (hs0 : 0 < sv (mtlJac E losses features shared)) :
+    let o := mtlBackward E ndim losses features tps shared (upgradAgg sv normEps regEps u) chunk retain h
+    o.err = none ∧
+    ∃ v w : Vec α,
+      v = combine ((shared.map E.numel).sum) (mtlJac E losses features shared) w ∧
+      (∀ k, o.grads k = if k ∈ shared then accum (h k) (sliceOf E.numel shared k v)
+                        else taskAccum E (List.zip tps losses) k (h k)) ∧
+      NonConflictUpTo (mtlJac E losses features shared) v
+        (w.map fun wi => regEps * (sv (mtlJac E losses features shared) * sv (mtlJac E losses features shared)) * wi) := by
+  obtain ⟨w, mg, hw, hA⟩ := upgradAgg_mtlJac_e2e E losses features shared sv normEps regEps u hv.wf
+    hv.losses_ne hu hre
+  have hWF := mtlJac_matWF_e2e E losses features shared hv.wf
+  obtain ⟨herr, hg⟩ := mtl_eq_spec E ndim losses features tps shared _ chunk retain h hv hs _ hA
+    (combine_length_e2e _ _ w hWF.2)
+  exact ⟨herr, _, w, rfl, hg, upgrad_nc _ _ _ hWF _ normEps regEps hsv hs0 u w hu mg hw⟩
+
+theorem e2e_mtl_dualproj (E : Engine α) (ndim : Key → Nat) (losses features : List Key)
+    (tps : List (List Key)) (shared : List Key) (sv : Mat α → α) (normEps regEps : α) (u : Vec α)
+    (chunk : Option Int) (retain : Bool) (h : Grads α)
+    (hv : ValidMtl E ndim losses features tps shared chunk) (hs : shared ≠ [])
+    (hu : u.length = losses.length) (hre : 0 < regEps)
+    (hsv : normEps ≤ sv (mtlJac E losses features shared)) (hs0 : 0 < sv (mtlJac E losses features shared)) :
+    let o := mtlBackward E ndim losses features tps shared (dualprojAgg sv normEps regEps u) chunk retain h
+    o.err = none ∧
+    ∃ v w : Vec α,
+      v = combine ((shared.map E.numel).sum) (mtlJac E losses features shared) w ∧
+      (∀ k, o.grads k = if k ∈ shared then accum (h k) (sliceOf E.numel shared k v)
+                        else taskAccum E (List.zip tps losses) k (h k)) ∧
+      NonConflictUpTo (mtlJac E losses features shared) v
+        (w.map fun wi => regEps * (sv (mtlJac E losses features shared) * sv (mtlJac E losses features shared)) * wi) := by
+  obtain ⟨w, mg, hw, hA⟩ := dualprojAgg_mtlJac_e2e E losses features shared sv normEps regEps u hv.wf
+    hv.losses_ne hu hre
+  have hWF := mtlJac_matWF_e2e E losses features shared hv.wf
+  obtain ⟨herr, hg⟩ := mtl_eq_spec E ndim losses features tps shared _ chunk retain h hv hs _ hA
+    (combine_length_e2e _ _ w hWF.2)
+  exact ⟨herr, _, w, rfl, hg, dualproj_nc _ _ _ hWF _ normEps regEps hsv hs0 u w hu mg hw⟩
 
 end Tjd.Agg
